@@ -3,6 +3,19 @@ import Driver.Seq
 namespace Goframe.Driver
 open Goframe
 
+/-- the callbacks of this engine: those of the transition system (tags 0-9) and three more — results of mixed
+kinds, and (column-wise) a slice longer / shorter than the column. `Frame.applyCol` / `applyRowWith` and the
+C17 theorems are stated for an arbitrary `List Cell → ApplyRes`, so these need no new proof. -/
+def aplEval (tag : Nat) : Except String (List Cell → ApplyRes) :=
+  match tag with
+  | 10 => pure (fun xs => match xs.headD .nil with
+      | .nil => .scalar (.str [110, 47, 97])
+      | .str _ => .scalar (.str [110, 47, 97])
+      | _ => .slice xs)
+  | 11 => pure (fun xs => .slice (xs ++ [.int .int 7]))
+  | 12 => pure (fun xs => .slice xs.dropLast)
+  | n => (applyFnOf n).map (·.eval)
+
 def checkApl : P String := do
   let tab ← pOracle
   let _ω := tab.toOracle
@@ -10,7 +23,7 @@ def checkApl : P String := do
   let f ← pFrame
   let axis ← pNat
   let tagN ← pNat
-  let fn ← liftE (applyFnOf tagN)
+  let fnEval ← liftE (aplEval tagN)
   expect "SCHED"
   let order ← pList pNat
   expect "R"
@@ -28,7 +41,7 @@ def checkApl : P String := do
   if argmut != 0 then c17 := firstFail c17 "fail:callback-argument-overwritten"
   if after != f then c17 := firstFail c17 "fail:source-changed"
   -- the reference: a sequential loop
-  let seqRef := if axis == 1 then f.applyRowSeq fn.eval else f.applyCol fn.eval
+  let seqRef := if axis == 1 then f.applyRowSeq fnEval else f.applyCol fnEval
   match seqRef, res with
   | .ok e, some x => if !frameApprox e x then c17 := firstFail c17 "fail:differs-from-sequential"
   | .err _, none => if st != "err" then c17 := firstFail c17 "fail:status"
@@ -42,7 +55,7 @@ def checkApl : P String := do
   if !callsOk then c17 := firstFail c17 "fail:calls"
   -- the model under the schedule that was actually forced
   if axis == 1 && st == "ok" && order.length == f.nrows then
-    match f.applyRowWith order fn.eval, res with
+    match f.applyRowWith order fnEval, res with
     | .ok e, some x => if !frameApprox e x then corr := "fail:schedule-model-differs"
     | _, _ => corr := "fail:status"
   let nontriv := axis == 1 && f.nrows ≥ 2 && order != List.range f.nrows
